@@ -99,7 +99,8 @@ func Harness_C32_set() {
 func Harness_C32_map() {
 	zz.MustCover("(*github.com/honeycombio/refinery/generics.MapWithTTL[string, int]).Get",
 		"(*github.com/honeycombio/refinery/generics.MapWithTTL[string, int]).cleanup",
-		"(*github.com/honeycombio/refinery/generics.MapWithTTL[string, int]).Set")
+		"(*github.com/honeycombio/refinery/generics.MapWithTTL[string, int]).Set",
+		"(*github.com/honeycombio/refinery/generics.MapWithTTL[string, int]).SortedValues")
 	K := verifSteps()
 	zz.Bound("operations", K)
 	zz.Bound("keys", 2)
@@ -155,6 +156,17 @@ func Harness_C32_map() {
 	}
 	if want1 {
 		cnt++
+	}
+	sk := m.SortedKeys()
+	sv := m.SortedValues()
+	zz.Assert(len(sk) == len(ks), "SortedKeys agrees with Keys")
+	zz.Assert(len(sv) == len(sk), "SortedValues agrees with SortedKeys at every instant")
+	if len(sv) == 2 {
+		zz.Assert(sv[0] == val[0], "SortedValues lists the latest values in key order")
+		zz.Assert(sv[1] == val[1], "SortedValues lists the latest values in key order (second)")
+	}
+	if len(sv) == 1 && len(sk) == 1 {
+		zz.Assert(sv[0] == zz.IteInt(sk[0] == "a", val[0], val[1]), "SortedValues lists the value of the listed key")
 	}
 	zz.Assert(ok0 == k0, "Get agrees with Keys at every instant")
 	zz.Assert(ok1 == k1, "Get agrees with Keys at every instant (second key)")
